@@ -141,9 +141,10 @@ var c03Menu = []string{
 }
 
 type c03L2Case struct {
-	Text  string
-	Cmd   string
-	Bound int
+	Text     string
+	Cmd      string
+	Bound    int
+	DefsOnly bool // schedule only the map ranges of expandDefinitions (then Bound may be "all")
 }
 
 type c03L2Out struct {
@@ -235,7 +236,7 @@ func C03(r *core.Run) {
 	add := func(lines []string, bound int, cmds ...string) {
 		t := strings.Join(lines, "\n") + "\n"
 		for _, c := range cmds {
-			cases = append(cases, c03L2Case{t, c, bound})
+			cases = append(cases, c03L2Case{Text: t, Cmd: c, Bound: bound})
 		}
 	}
 	all := []string{"generate", "format", "check", "update", "compare"}
@@ -255,6 +256,12 @@ func C03(r *core.Run) {
 				}
 			}
 		}
+	}
+	// definition chains of depth 3 and 4 under all (depth 3) / <= 3 deviations (depth 4) of the definition map orders
+	chain3 := "##!> define z v\n##!> define y u{{z}}\n##!> define x {{y}}w\n{{x}}\nk{{y}}\n"
+	chain4 := "##!> define d [0-9]\n##!> define o {{d}}{1,3}\n##!> define i {{o}}\\.{{o}}\n##!> define h {{i}}|host\nx{{h}}\n"
+	for _, c := range all {
+		cases = append(cases, c03L2Case{chain3, c, 1000, true}, c03L2Case{chain4, c, r.Pick(2, 3), true})
 	}
 	b1, b2, b3 := r.Pick(2, 3), r.Pick(1, 2), r.Pick(0, 1)
 	type l2In struct {
@@ -276,6 +283,10 @@ func C03(r *core.Run) {
 			}
 			r.Inflight("L2:" + c.Cmd + ":" + c.Text)
 			cmd := cmds[c.Cmd]
+			core.SiteFilter = nil
+			if c.DefsOnly {
+				core.SiteFilter = func(site string) bool { return strings.HasSuffix(site, ":expandDefinitions") }
+			}
 			// self-check of the seam: the same schedule replayed twice gives the same observation
 			outs, sched, execs := outcomesUnder(c.Bound, func() string { return cmd.Run(root, c.Text) })
 			out.Cases++
